@@ -9,7 +9,7 @@ Flags of a run: lazy, cache, strategy (schedule), seed, rev (start order variant
 Behaviour script (all keys optional):
   step_size (time-based), self_steps {"t" or "t,k": next}, outputs {"t,k": [out_time|None, [attrs]]},
   get_data {"t,k": [[target sid, attr], ...]} (asynchronous get_data requests issued during the step),
-  default_output [out_time|None, [attrs]], none_outputs ["t,k", ...] (steps whose 'po' value is None), bad {"t,k": ["step"|"time", value]} (malformed reply injection),
+  default_output [out_time|None, [attrs]], none_outputs ["t,k", ...] (steps whose 'po' value - or the values of none_attrs - are None), bad {"t,k": ["step"|"time", value]} (malformed reply injection),
   set_data {"t,k": [[dest_sim_index, attr, token], ...]} (async set_data issued during that step)
 """
 from __future__ import annotations
@@ -126,6 +126,10 @@ class GSim(mosaik_api_v3.Simulator):
             m['attrs'] = ['ti', 't2', 'eo', 'e2']
         else:
             m['attrs'] = ['i', 'po']
+        if self.beh.get('api_version'):
+            # a simulator written for an older API: it is reached through mosaik's version adapters (step is then called
+            # without max_advance)
+            self.meta['api_version'] = self.beh['api_version']
         if self.beh.get('parent_model'):
             # a second model whose attribute facts differ from M's: 'nope' exists, i/ti swap trigger-ness, po/eo swap persistence
             self.meta['models']['P'] = {'public': True, 'params': [], 'attrs': ['i', 'ti', 'po', 'eo', 'nope'],
@@ -140,9 +144,10 @@ class GSim(mosaik_api_v3.Simulator):
     def create(self, num, model):
         if model == 'P':        # hierarchical entities: the child is of model M and keeps the entity id 'e'
             return [{'eid': 'p', 'type': 'P', 'children': [{'eid': 'e', 'type': 'M'}]}]
-        return [{'eid': 'e', 'type': model}]
+        # num > 1: mirror entities m1, m2, ... beside e
+        return [{'eid': 'e' if k == 0 else f'm{k}', 'type': model} for k in range(num)]
 
-    def step(self, time, inputs, max_advance):
+    def step(self, time, inputs, max_advance=None):
         ctrl = CTX.ctrl
         cs = CTX.world.sims[self.sid].current_step
         self.time = time
@@ -204,10 +209,14 @@ class GSim(mosaik_api_v3.Simulator):
         else:
             ot, attrs = spec
             d = {'e': {a: f'{self.sid}@{self.time}.{self.k}' for a in attrs if a in outputs.get('e', [])}}
+            for eid in outputs:
+                if eid != 'e':       # mirror entities produce the same attributes, the value tokens carry their id
+                    d[eid] = {a: f'{self.sid}@{self.time}.{self.k}#{eid}' for a in attrs if a in outputs[eid]}
             if _key(self.time, self.k) in b.get('none_outputs', ()):
                 # "no reading": the persistent attribute is produced with the value None
-                for a in d['e']:
-                    if a == 'po': d['e'][a] = None
+                for eid in d:
+                    for a in d[eid]:
+                        if a in b.get('none_attrs', ('po',)): d[eid][a] = None
             if ot is not None: d['time'] = ot
         bad = b.get('bad', {}).get(_key(self.time, self.k))
         if bad and bad[0] == 'time':
@@ -220,11 +229,16 @@ def build_world(case, cache=True, rev=False, debug=False):
     world = mosaik.World({'S': {'python': 'harness.simlib:GSim'}}, cache=cache, skip_greetings=True,
                          max_loop_iterations=case.get('maxloop', 100), debug=debug)
     n = case['n']
-    ents = {}
+    ents = {}; mirrors = {}
     grp = [tuple(g) for g in case['grp']]
 
     def start(i):
         mf = world.start('S', sim_id=f'S{i}', beh=copy.deepcopy(case['beh'][i]))
+        if case.get('mirror'):
+            # several entities per simulator: e and the mirror entities m1, m2, ..., connected index by index
+            allents = mf.M.create(1 + case['mirror'])
+            ents[i] = allents[0]; mirrors[i] = allents[1:]
+            return
         ents[i] = mf.P().children[0] if case['beh'][i].get('parent_model') else mf.A() if case['beh'][i].get('any_inputs_model') else mf.M()
 
     def visit(path):
@@ -244,6 +258,9 @@ def build_world(case, cache=True, rev=False, debug=False):
         if e.get('init'): kw['initial_data'] = {e['sa']: f"init{e['a']}-{e['b']}"}
         if e.get('async'): kw['async_requests'] = True
         world.connect(ents[e['a']], ents[e['b']], (e['sa'], e['da']), **kw)
+        for ma, mb in zip(mirrors.get(e['a'], []), mirrors.get(e['b'], [])):
+            kw2 = {k_: v_ for k_, v_ in kw.items() if k_ != 'async_requests'}
+            world.connect(ma, mb, (e['sa'], e['da']), **kw2)
     for (i, t) in case.get('init', []):
         world.set_initial_event(f'S{i}', t)
     return world
